@@ -80,7 +80,7 @@ func c08Header(c *Ctx, r *Report) {
 }
 
 func c08R2(c *Ctx, r *Report) {
-	r.rule("C08.R2.thread-offset", 3, "msgLenWithCompressionMap passes the running length as each record's offset, and the same map")
+	r.rule("C08.R2.thread-offset", 2, "msgLenWithCompressionMap passes the running length as each record's offset, and the same map")
 	fn := c.ssaFunc("msgLenWithCompressionMap")
 	if fn == nil {
 		r.cerr("C08.R2.thread-offset", "msgLenWithCompressionMap", "function not found")
@@ -127,6 +127,110 @@ func c08R2(c *Ctx, r *Report) {
 		}
 		r.check(len(problems) == 0, "C08.R2.thread-offset", construct, c.pos(call.Pos()), "l += r.len(l, compression)", "%s", strings.Join(problems, "; "))
 	})
+	// a section measured by a helper: it is handed the section, the running length and the map, its result is the new
+	// running length, and inside it the same threading holds with its parameters
+	sectionOf := func(v ssa.Value) string {
+		for _, sname := range []string{"Question", "Answer", "Ns", "Extra"} {
+			if ld, ok := v.(*ssa.UnOp); ok && ld.Op == token.MUL && readsField("Msg", sname)(ld.X) {
+				return sname
+			}
+		}
+		return ""
+	}
+	isLenCall := func(call *ssa.Call) bool {
+		name := calleeNameSSA(&call.Call)
+		return strings.HasSuffix(name, ".len") && !strings.HasPrefix(name, "builtin.")
+	}
+	helperWalk := map[*ssa.Call]string{}
+	allInstrs(fn, func(in ssa.Instruction) {
+		call, ok := in.(*ssa.Call)
+		if !ok {
+			return
+		}
+		g := call.Call.StaticCallee()
+		if g == nil || g.Pkg != fn.Pkg || isLenCall(call) || len(g.Blocks) == 0 {
+			return
+		}
+		sec, secIdx := "", -1
+		for i, a := range call.Call.Args {
+			if sname := sectionOf(a); sname != "" {
+				sec, secIdx = sname, i
+			}
+		}
+		if sec == "" {
+			return
+		}
+		var inner []*ssa.Call
+		allInstrs(g, func(x ssa.Instruction) {
+			if cl, ok := x.(*ssa.Call); ok && isLenCall(cl) {
+				inner = append(inner, cl)
+			}
+		})
+		if len(inner) == 0 {
+			return
+		}
+		n++
+		helperWalk[call] = sec
+		construct := fmt.Sprintf("msgLenWithCompressionMap->%s(%s)", g.Name(), sec)
+		var problems []string
+		mapIdx, offIdx := -1, -1
+		for i, a := range call.Call.Args {
+			if a == fn.Params[1] {
+				mapIdx = i
+			}
+			var running func(v ssa.Value, depth int) bool
+			running = func(v ssa.Value, depth int) bool {
+				if depth > 6 {
+					return false
+				}
+				if reachesConst(v, 12) {
+					return true
+				}
+				// the result of measuring the section before, with the same helper
+				if prev, ok := v.(*ssa.Call); ok && prev.Call.StaticCallee() == g {
+					for _, pa := range prev.Call.Args {
+						if b, isB := pa.Type().Underlying().(*types.Basic); isB && b.Kind() == types.Int && running(pa, depth+1) {
+							return true
+						}
+					}
+				}
+				return false
+			}
+			if i != secIdx && running(a, 0) {
+				offIdx = i
+			}
+		}
+		if mapIdx < 0 {
+			problems = append(problems, "does not pass the compression map parameter")
+		}
+		if offIdx < 0 {
+			problems = append(problems, "the running length (starting at headerSize) is not handed to the helper")
+		}
+		for _, cl := range inner {
+			args := cl.Call.Args
+			if !cl.Call.IsInvoke() {
+				args = args[1:]
+			}
+			if len(args) != 2 {
+				continue
+			}
+			if mapIdx >= 0 && args[1] != ssa.Value(g.Params[mapIdx]) {
+				problems = append(problems, "the helper does not pass its map parameter on")
+			}
+			if offIdx >= 0 {
+				fromParam := false
+				for _, l := range phiLeaves(args[0]) {
+					if l == ssa.Value(g.Params[offIdx]) {
+						fromParam = true
+					}
+				}
+				if !fromParam {
+					problems = append(problems, "inside the helper the offset of a record does not start from the running length handed in")
+				}
+			}
+		}
+		r.check(len(problems) == 0, "C08.R2.thread-offset", construct, c.pos(call.Pos()), "l = helper(section, l, compression)", "%s", strings.Join(problems, "; "))
+	})
 	if hs, ok := c.constInt("headerSize"); !ok || hs != 12 {
 		r.fail("C08.R2.thread-offset", "headerSize", "", "headerSize = %d, the DNS header is 12 octets", hs)
 	}
@@ -139,6 +243,11 @@ func c08R2(c *Ctx, r *Report) {
 		allInstrs(fn, func(in ssa.Instruction) {
 			call, ok := in.(*ssa.Call)
 			if !ok {
+				return
+			}
+			if sec, isWalk := helperWalk[call]; isWalk {
+				perCall[call] = []string{sec}
+				calls = append(calls, call)
 				return
 			}
 			name := calleeNameSSA(&call.Call)
